@@ -44,8 +44,11 @@ BlankOk(env, exp, toks, b) ==
       ft == FText(env, b.f)
       copied == /\ b.off + len <= Len(ft)
                 /\ SubSeq(ft, b.off + 1, b.off + len) = b.t
-                /\ (pt.c = "copy" /\ pt.f = b.f => pt.off + Len(toks[b.prev].t) <= b.off)
-                /\ (nt.c = "copy" /\ nt.f = b.f => b.off + len <= nt.off)
+                \* (a blank run duplicated by known finding D2 repeats an earlier source range, so the
+                \*  "between its neighbours" part is only demanded by the reference specification)
+                /\ ("DupTriviaAfterStrEsc" \in Dev \/
+                     /\ (pt.c = "copy" /\ pt.f = b.f => pt.off + Len(toks[b.prev].t) <= b.off)
+                     /\ (nt.c = "copy" /\ nt.f = b.f => b.off + len <= nt.off))
       nearExp == (pt.c = "exp" /\ pt.f = b.f) \/ (nt.c = "exp" /\ nt.f = b.f)
       nearSyn == pt.c = "syn" \/ nt.c = "syn"
       \* an expansion that consists of blanks only has no neighbouring expansion token: it must then
